@@ -14,6 +14,14 @@ def kidsOf (j : Json) : Except String (List Child) := do
 def jnat (n : Nat) : Json := Json.num (JsonNumber.fromNat n)
 
 def handle (op : String) (j : Json) : Except String Json := do
+  if op == "clist.linkclear" then   -- children left after `del owner.<link relation>`
+    let raw ← j.getObjValAs? (Array Json) "lkids"
+    let lk ← raw.toList.mapM (fun c => do
+      pure ({ nid := ← c.getObjValAs? Nat "nid", tag := ← c.getObjValAs? String "tag",
+              xt := ← c.getObjValAs? String "xt", target := 0 } : LinkKid))
+    let tag := (j.getObjValAs? String "tag").toOption
+    let xts ← j.getObjValAs? (Array String) "xts"
+    return Json.arr ((linkClear tag xts.toList lk).map (fun k => jnat k.nid)).toArray
   let kids ← kidsOf j
   if op == "clist.assign" then   -- children sequence after `owner.rel = new` / `lst[i] = x`
     let new ← j.getObjValAs? (Array Nat) "new"
